@@ -427,10 +427,9 @@ func ruleSET1(p *Program) *RuleResult {
 				if ct, ok := arg.(*ssa.ChangeType); ok {
 					arg = ct.X
 				}
-				if ex, ok := arg.(*ssa.Extract); ok {
-					if call, ok := ex.Tuple.(*ssa.Call); ok && call.Common().IsInvoke() && call.Common().Method.Name() == "Evaluate" {
-						okSel = true
-					}
+				// the projection's result, directly or as handed back by an in-repo helper
+				if fromEvaluate(arg, 0) {
+					okSel = true
 				}
 			}
 		}
